@@ -898,7 +898,10 @@ def run(R):
                     "kdump_read of every listed and neighbouring frame in both address spaces, conversions both ways; in half of the files as a HISTORY: "
                     "1-3 changes of the translation set-up (addrxlat.default.* / addrxlat.force.* / addrxlat.ostype / xen.p2m_mfn set or cleared, "
                     "followed by kdump_get_addrxlat or by a read in the kernel virtual space; set-ups that fail after or before the reset of the "
-                    "translation system, asked for again without a change, then repaired), the same reads and conversions after each. non-trivial = distinct lists with a run and a second piece / tables with >=3 records",
+                    "translation system, asked for again without a change, then repaired), the same reads and conversions after each. RE-OPEN HISTORIES: 36 (quick) chains of 2-4 dumps "
+                    "given to ONE context by kdump_open_fd (PV->HVM, HVM->PV, PV->PV, HVM->HVM; later page lists fresh or derived from the earlier one: permuted, thinned, "
+                    "machine frames exchanged; same or changing byte order/architecture; option-change histories inside a stage), every stage checked against its own page list "
+                    "and against a context created for that dump alone, machine view of auto-translated dumps included. non-trivial = distinct lists with a run and a second piece / tables with >=3 records",
                traces_validated_against_impl=validated, correspondence_first_diff=first_diff, case_kinds=kinds, samples=samples[:3])
     return "proof", cov, ["page lists with pairwise distinct frame numbers (a frame listed twice has no single page to compare)",
                           "fewer than 2^63 list entries (int_fast64_t run length cannot overflow)",
@@ -906,7 +909,13 @@ def run(R):
                           "qsort sorts; realloc/pread behave as specified",
                           "histories: whether addrxlat_sys_os_init succeeds with the options at hand is a parameter of the model (given by the "
                           "generator for each step: the listed option changes succeed on the generated x86_64 / s390x domain dumps, a missing or "
-                          "13-bit paging mode and an unknown architecture name fail); the address translation of libaddrxlat itself is C08/C09's subject"]
+                          "13-bit paging mode and an unknown architecture name fail); the address translation of libaddrxlat itself is C08/C09's subject",
+                          "re-open histories: 2-4 dumps on one context through kdump_open_fd; model: Ctx/openCtx (stored xen.xlat number survives "
+                          "clear_volatile_attrs, maps rebuilt per open), theorems reopen_*/history_last_only; the comparison of every re-opened dump with "
+                          "the same operations on a context created for it is implementation-only; every (re-)open and the set-up after it succeed",
+                          "LEFT OPEN: re-opening by setting the file.fd attribute on a context that has a dump open is not exercised: after "
+                          "kdump_set_number_attr(ctx, \"file.fd\", fd2) on such a context kdump_free(ctx) blocks forever in rwlock_wrlock(&shared->lock) "
+                          "(harness input: open <pv.dump> 48 / reopen <hvm.dump> 48 1 / close); not analysed within the time budget"]
 
 
 def first_error(err):
